@@ -296,7 +296,7 @@ pub fn run(tier: &str) -> Report {
             explore_dfs(bound, 200_000, &|ch| crate::c07::gen_flat(ch, kk, jumps), &mut |_, (b, _)| { if seen.insert(b.clone()) { reg_bodies.push((b, "flat")); } });
         }
         let (b2, d2) = if thorough { (3, 2) } else { (2, 2) };
-        explore_dfs(b2, 200_000, &|ch| { let mut g = crate::c06::GB { ch, marker: 0, n_struct: 0, has_inner_label_or_nest: false, max_depth: d2, count_jmp: true }; let b = g.block(d2, false); format!("{{ {b} }}") },
+        explore_dfs(b2, 200_000, &|ch| { let mut g = crate::c06::GB { ch, marker: 0, n_struct: 0, has_inner_label_or_nest: false, max_depth: d2, count_jmp: true, gotos: false }; let b = g.block(d2, false); format!("{{ {b} }}") },
             &mut |_, b| { if seen.insert(b.clone()) { reg_bodies.push((b, "block")); } });
         let (b3, d3) = if thorough { (3, 2) } else { (2, 2) };
         explore_dfs(b3, 200_000, &|ch| { let mut g = crate::gen::G::new(ch, &table); g.max_depth = d3; g.body(2) }, &mut |_, b| { if seen.insert(b.clone()) { reg_bodies.push((b, "expr")); } });
